@@ -13,6 +13,7 @@ mod edwards;
 mod foreign;
 mod foreign_ecc;
 mod keycmp;
+mod map;
 mod native;
 mod poseidon;
 mod vector;
@@ -202,6 +203,7 @@ fn main() {
             }
         }
         "biguint" => biguint::run_family(&spec, k, replay),
+        "map" => map::main_arm(spec, k, replay),
         "vector" => vector::main_arm(spec, k, replay),
         _ => panic!("unknown family {family}"),
     }
